@@ -389,3 +389,72 @@ def check_c13(pid, tier, build, props):
 
 
 REGISTRY["C13"] = check_c13
+
+
+# --------------------------------------------------------------------------- C14
+def check_c14(pid, tier, build, props):
+    from . import c14
+
+    t = common.Timer()
+    problems = base_problems(build, props, pid)
+    cases, out, errors = c14.run(tier, common.seed())
+    if errors:
+        problems.append("driver errors: %r" % errors[:2])
+    violations = []
+    by = {}
+    evaluated = 0
+    skipped = 0
+    for case, meta, res in out:
+        if res is None:
+            if meta and "harness_error" in meta:
+                problems.append("harness error: %r" % (meta,))
+            skipped += 1
+            continue
+        evaluated += 1
+        key = "%s/status%d" % (meta["op"], meta["status"])
+        by[key] = by.get(key, 0) + 1
+        if meta["status"] == 3 and len(violations) < 5:
+            violations.append({"case": repr(case)[:600], "witness": {"reason": "primitive raised an unexpected exception"}})
+        elif res != [1, 1] and len(violations) < 5:
+            spec, op = case
+            violations.append({
+                "graph": [list(map(str, s)) for s in spec], "operation": list(map(str, op)),
+                "witness": {"reason": "model and implementation disagree" if res[0] != 1 else
+                            "a rerouted arc does not pass through its own assignment block to its original target",
+                            "columns": res}})
+    nth = len(props["theorems"])
+    coverage = {
+        "obligations": nth + 1,
+        "discharged": (nth if props["ok"] else 0) + (1 if not violations and not errors and evaluated else 0),
+        "checker_cmd": "coqc Props/C14.v; build/extract/vchk (Edits2.run_c14) on before/after graphs of every primitive call",
+        "trusted_base": TRUSTED + ["extraction (ExtrOcamlBasic only) and ocaml/driver.ml",
+                                   "harness/vh/c14.py (export of the graphs before and after each call)"],
+        "theorems": props["theorems"],
+        "evaluations": evaluated,
+        "distinct_nontrivial": len(set(repr(c) for c, m, r in out if r is not None and c[1][0] != "jr")),
+        "rule": "ALL graphs with <=2 nodes/out-degree 2 (external target, self loops, duplicates), sampled 3-node "
+                "and random 4..8-node graphs, each also with branching synthetic / tail blocks and declared back "
+                "edges; per graph all ordered (P,S) with |P|,|S|<=2 (sampled for larger graphs), S empty, a missing "
+                "predecessor, a non-fresh name, join_returns, join_tails_and_exits for all tail/exit subsets up to "
+                "size 3. One evaluation = one primitive call compared order-exactly with the model (and, for the "
+                "control-block variant, checked by cb_ok); non-trivial = not join_returns; distinct by (graph, call)",
+        "calls_by_primitive_and_status": by, "skipped": skipped,
+        "samples": [{"graph": [list(map(str, s)) for s in cases[len(cases) // 2][0]],
+                     "operation": list(map(str, cases[len(cases) // 2][1]))}],
+        "traces_validated_against_impl": evaluated,
+        "explanation": "Proved (U): the successor rewrite of insert_block keeps the order of the remaining successors, "
+                       "removes every arc into S, adds the new block exactly once; insert_block changes only "
+                       "predecessors (their back edges untouched) and creates the new block with successors S; "
+                       "join_returns is a no-op with <=1 exit and otherwise adds one exit reached from every former "
+                       "exit. Per result (verified checker cb_ok): each rerouted arc of the control-block variant has "
+                       "its own assignment block and the head's table leads to the arc's original target. Tie: exact, "
+                       "order-faithful correspondence of all four primitives incl. KeyError/AssertionError outcomes. "
+                       "Not proved: path preservation under arbitrary SEQUENCES of edits (decided per pipeline run by "
+                       "C01's checker); region predecessors are modelled at the level of the region's own targets "
+                       "(their exiting blocks are covered by C04's checker).",
+    }
+    return {"coverage": coverage, "violations": violations, "problems": problems, "level": "proof",
+            "wall_s": t.s(), "broken_name": "Props/C14.v / correspondence implementation = Edits model (run_c14)"}
+
+
+REGISTRY["C14"] = check_c14
